@@ -380,6 +380,7 @@ def lists_eligible(prog):
         if f.args.kwarg:
             b.add(f.args.kwarg.arg)
         outer = set()
+        comp_targets = set()
         stack = list(f.body) if isinstance(f, ast.FunctionDef) else [f.body]
         while stack:
             x = stack.pop()
@@ -391,6 +392,15 @@ def lists_eligible(prog):
                 outer.update(x.names)
             if isinstance(x, ast.Name) and isinstance(x.ctx, ast.Store):
                 b.add(x.id)
+            if isinstance(x, (ast.ListComp, ast.SetComp, ast.DictComp, ast.GeneratorExp)):
+                # comprehension targets are bound in the comprehension's own scope, not in the function
+                for gen in x.generators:
+                    stack.append(gen.iter)
+                    stack.extend(gen.ifs)
+                stack.extend([x.key, x.value] if isinstance(x, ast.DictComp) else [x.elt])
+                tg = set(n.id for gen in x.generators for n in ast.walk(gen.target) if isinstance(n, ast.Name))
+                comp_targets.update(tg)
+                continue
             stack.extend(ast.iter_child_nodes(x))
         return b - outer
 
